@@ -390,6 +390,21 @@ func lshRun(prop string, o *Opts) {
 			} `json:"replay"`
 		}
 		readJSON(o.Replay, &rp)
+		var generic struct {
+			Replay struct {
+				Corpus string `json:"corpus"`
+				Seed   int64  `json:"seed"`
+			} `json:"replay"`
+		}
+		readJSON(o.Replay, &generic)
+		if generic.Replay.Corpus == "overflow" {
+			if generic.Replay.Seed != 0 {
+				o.Seed = generic.Replay.Seed
+			}
+			overflowCorpus(o, res)
+			res.Write(o.Out)
+			return
+		}
 		sig, detail := runLSHChild(o, &rp.Replay.Scenario)
 		res.Evaluations = len(rp.Replay.Scenario.Ops)
 		if sig != "" {
@@ -401,6 +416,9 @@ func lshRun(prop string, o *Opts) {
 		}
 		res.Write(o.Out)
 		return
+	}
+	if prop == "C04" {
+		overflowCorpus(o, res)
 	}
 	// the scenarios run in parallel child processes; results are folded in scenario order
 	type outcome struct {
@@ -751,6 +769,63 @@ func searchTie(drv *Driver, hp *hpTable, c *syzgydb.Collection, sc *lshScenario,
 	}
 	// the oracles found nothing wrong with this search: report the model divergence, if any
 	return tieSig, tieDetail
+}
+
+// overflowCorpus is the minimised form of a past failure (fixed in /repo 93c5d62) that runs first: queries whose
+// components are near the largest float64 make the distance to a hyperplane overflow to +Inf; with a filter
+// that a single document passes, a K-nearest search must still return that document.
+func overflowCorpus(o *Opts, res *Result) {
+	rng := rand.New(rand.NewSource(o.Seed*104729 + 17))
+	path := filepath.Join(o.Scratch, "lsh-overflow.dat")
+	os.Remove(path)
+	defer os.Remove(path)
+	const dim = 16
+	c, err := syzgydb.NewCollection(syzgydb.CollectionOptions{Name: path, DistanceMethod: syzgydb.Euclidean, DimensionCount: dim, Quantization: 64, FileMode: syzgydb.CreateAndOverwrite})
+	if err != nil {
+		fatal("overflow corpus: %v", err)
+	}
+	defer c.Close()
+	n := 300
+	for i := 0; i < n; i++ {
+		v := make([]float64, dim)
+		for j := range v {
+			v[j] = rng.Float64()*2 - 1
+		}
+		c.AddDocument(uint64(i), v, []byte(fmt.Sprintf(`{"n":%d}`, i)))
+	}
+	trials := 800
+	if o.Tier == "thorough" {
+		trials = 6000
+	}
+	for t := 0; t < trials; t++ {
+		q := make([]float64, dim)
+		for j := range q {
+			q[j] = []float64{1.79e308, -1.79e308}[rng.Intn(2)]
+		}
+		want := uint64(rng.Intn(n))
+		var got []syzgydb.SearchResult
+		func() {
+			defer func() {
+				if r := recover(); r != nil {
+					res.Violate("impl-failure", "C04/panic", fmt.Sprintf("search with an overflowing query panics: %v", r), map[string]any{"corpus": "overflow", "trial": t, "query": q, "id": want})
+				}
+			}()
+			got = c.Search(syzgydb.SearchArgs{Vector: q, K: 5, Filter: func(id uint64, md []byte) bool { return id == want }}).Results
+		}()
+		res.Evaluations++
+		res.Hit("corpus:overflow-query")
+		if len(got) == 0 {
+			res.Violate("impl-failure", "C04/empty-although-match-exists",
+				fmt.Sprintf("K=5 search with query components of magnitude 1.79e308 and a filter that document %d passes returned nothing (300 documents, 16 dimensions, Euclidean)", want),
+				map[string]any{"corpus": "overflow", "seed": o.Seed, "trial": t, "query": q, "id": want})
+			return
+		}
+		if got[0].ID != want {
+			res.Violate("impl-failure", "C04/filter-rejected-document-returned", fmt.Sprintf("filter passes only %d, search returned %d", want, got[0].ID),
+				map[string]any{"corpus": "overflow", "trial": t, "query": q, "id": want})
+			return
+		}
+	}
 }
 
 func lshMain(prop string) func(o *Opts) {
